@@ -200,6 +200,54 @@ impl Cx {
     }
 }
 
+impl Cx {
+    /// structured seed families used one after the other and interleaved on one thread: same
+    /// 8/16/31-byte prefix, differing in one late bit, label || index.  Everything a key produces
+    /// is logged next to the reference's value, every signature is verified under its own key and
+    /// under its sibling's key (must fail).
+    fn family_case(&mut self, which: u64) {
+        self.out.ev(json!({"ev": "reset"}));
+        let mut base = [0u8; 32];
+        self.rng.fill(&mut base);
+        let mut seeds: Vec<[u8; 32]> = vec![base];
+        match which % 4 {
+            0 => for cut in [8usize, 16, 31] { let mut s = base; for b in s[cut..].iter_mut() { *b = self.rng.next_u64() as u8; } seeds.push(s); },
+            1 => for bit in [255usize, 200, 64, 65] { let mut s = base; s[bit / 8] ^= 1 << (bit % 8); seeds.push(s); },
+            2 => { seeds.clear(); for i in 0..4u8 { let mut s = [0u8; 32]; s[..12].copy_from_slice(b"pallas-label"); s[31] = i; seeds.push(s); } },
+            _ => { let mut s = base; s[31] = s[31].wrapping_add(1); seeds.push(s); let mut t = base; t[8] ^= 0xff; seeds.push(t); },
+        }
+        let m = self.msg();
+        // order: K1, K2, .., Kn, K1, K2, K1 (first use, then interleaved re-use)
+        let mut order: Vec<usize> = (0..seeds.len()).collect();
+        order.extend([0, 1, 0]);
+        let mut last: Vec<Option<([u8; 32], [u8; 64])>> = vec![None; seeds.len()];
+        for (step, &i) in order.iter().enumerate() {
+            let seed = seeds[i];
+            let sk = SecretKey::from(seed);
+            let rk = ed25519_dalek::SigningKey::from_bytes(&seed);
+            // alternate which operation touches the key first
+            let (pk, s): ([u8; 32], [u8; 64]) = if step % 2 == 0 {
+                let pk: [u8; 32] = sk.public_key().into();
+                (pk, sk.sign(&m).as_ref().try_into().unwrap())
+            } else {
+                let s: [u8; 64] = sk.sign(&m).as_ref().try_into().unwrap();
+                (sk.public_key().into(), s)
+            };
+            self.out.ev(json!({"ev": "public_key", "kind": "std", "src": "ref", "sk": hex(&seed), "pk": hex(&rk.verifying_key().to_bytes())}));
+            self.out.ev(json!({"ev": "public_key", "kind": "std", "src": "pallas", "sk": hex(&seed), "pk": hex(&pk)}));
+            self.out.ev(json!({"ev": "sign", "kind": "std", "src": "ref", "sk": hex(&seed), "msg": hex(&m), "sig": hex(&rk.sign(&m).to_bytes())}));
+            self.out.ev(json!({"ev": "sign", "kind": "std", "src": "pallas", "sk": hex(&seed), "msg": hex(&m), "sig": hex(&s)}));
+            self.verify_both(&pk, &m, &s);
+            last[i] = Some((pk, s));
+            // the sibling's signature must not verify under this key
+            let j = (i + 1) % seeds.len();
+            if let Some((_, sj)) = last[j] {
+                if j != i { self.verify_both(&pk, &m, &sj); }
+            }
+        }
+    }
+}
+
 pub fn trace(args: &Args) {
     let mut cx = Cx { rng: Rng::new(args.seed()), out: Ndjson::create(args.get("out")), tamper_all: false };
     let full_every = args.num("fullevery", 10);
@@ -208,6 +256,9 @@ pub fn trace(args: &Args) {
             cx.tamper_all = i % full_every == 0;
             let full = cx.tamper_all;
             if i % 2 == 0 { cx.std_case(full) } else { cx.ext_case(full) }
+        }
+        for i in 0..args.num("families", 8) {
+            cx.family_case(i);
         }
     });
     if let Err(m) = r {
